@@ -420,6 +420,9 @@ class Agent(dbus.service.Object):
                 ctr.sender = cl_obj.send_bundle_func(ctr.route.raw_config)
 
         if ctr.sender is None:
+            if 'fragment' in ctr.actions:
+                # sent as fragments, each on its own
+                return
             raise RuntimeError('TX chain completed with no sender for %s', ctr.log_name())
 
         ctr.fix_block_num()
